@@ -15,16 +15,16 @@ CHECKS = {
    text="Every labeled complete symbol of dimension 1-3 up to the size bound is printed, parsed and compared; every single-token deviation of those texts and every short token string is parsed under a panic/abort/time-out guard and checked against the parse contract. Exhaustive within the bounds; the size bound is small but every parser defect found so far shows at size <= 2. Added in the build round: huge degrees at the integer-width boundaries, mid-size generator representatives in dimensions 2-4, disjoint unions.",
    note="Trusts: the harness reference model R1 (orbit walks). Texts come from the crate's own Display, which is what the property is about. Worker subprocesses under ulimit -v so aborts are attributed to the announced case.", ref="3/C01"),
  "C02": dict(tech="bounded exhaustive enumeration of all labeled D-sets/D-symbols (dim 1-3, size <= 3/4) x every query argument incl. out-of-range; lock-step reference model by orbit walks",
-   text="All tuples of involutions up to the size bound in every representation, every (i,j,d) query including out-of-range and non-adjacent pairs, every index subset x seed sequence for orbits/traversals, compared with definitions computed by orbit walks. Exhaustive in the bound. Added: the huge-degree family in all four representations.",
+   text="All tuples of involutions up to the size bound in every representation, every (i,j,d) query including out-of-range and non-adjacent pairs, every index subset x seed sequence for orbits/traversals, compared with definitions computed by orbit walks. Exhaustive in the bound. Added: the huge-degree family in all four representations; incomplete partial sets (size <= 3-4) with a full graph oracle (undefined operation = no edge).",
    note="Trusts R1 only. Objects are built through the crate's public constructors and re-read through op/v before use.", ref="3/C02"),
  "C03": dict(tech="bounded exhaustive enumeration of all labeled connected symbols (all renumberings included) against an n!-relabeling isomorphism oracle",
-   text="For every labeled connected symbol in the bound: canonical form is isomorphic to the input (class key by all n! relabelings), idempotent, and equal to the canonical form of the class representative, which together give 'equal forms iff isomorphic'. Larger harness-built covers (to 80 chambers) under systematic renumberings. Added: mid-size generator representatives (to 10-16 chambers) under 9 renumberings, Coxeter coset symbols to 384/1152 chambers, degrees of 2^62 and more under all renumberings.",
+   text="For every labeled connected symbol in the bound: canonical form is isomorphic to the input (class key by all n! relabelings), idempotent, and equal to the canonical form of the class representative, which together give 'equal forms iff isomorphic'. Larger harness-built covers (to 80 chambers) under systematic renumberings. Added: mid-size generator representatives (to 10-16 chambers) under 9 renumberings, Coxeter coset symbols to 384/1152 chambers, degrees of 2^62 and more under all renumberings; uniform degrees, single deviations and fully branched assignments on the mid-size family; every rotation of the chamber numbers one size further (3D 8 chambers, 2D 11).",
    note="Trusts R1 (two independent class-key algorithms cross-checked).", ref="3/C03"),
  "C04": dict(tech="bounded exhaustive enumeration of labeled connected symbols; oracles: Moore partition refinement, brute-force verified morphisms from every base image",
-   text="Minimal image size/quotient/minimality against the coarsest congruence by Moore refinement, automorphism list against verified brute force, morphism(s,t,e) for every base image into self, minimal image, harness-built 2-sheeted covers (both directions) and all symbols of size <= 2; covers share the minimal image. Added: mid-size generator representatives and Coxeter coset symbols with numbering independence, small targets of other dimensions.",
+   text="Minimal image size/quotient/minimality against the coarsest congruence by Moore refinement, automorphism list against verified brute force, morphism(s,t,e) for every base image into self, minimal image, harness-built 2-sheeted covers (both directions) and all symbols of size <= 2; covers share the minimal image. Added: mid-size generator representatives and Coxeter coset symbols with numbering independence, small targets of other dimensions; 3D to 8 chambers with spread assignments and uniform degrees with <= 2 doubled orbits.",
    note="Trusts R1. crate covers() only supplies extra covers, each verified to be a covering before use.", ref="3/C04"),
  "C06": dict(tech="bounded exhaustive enumeration: brute force over ALL commuting involution tuples vs generator output, per (dimension, max size) configuration",
-   text="For every (dim, max_size) up to the bound the complete set of isomorphism-class keys of connected commuting involution tuples is computed by brute force and must equal the generator's output key set, without duplicates. Added: configurations beyond the oracle (dimensions 1-5, to 14/11/10/9/8 chambers at quick) checked for validity, pairwise non-isomorphism and closure under local moves.",
+   text="For every (dim, max_size) up to the bound the complete set of isomorphism-class keys of connected commuting involution tuples is computed by brute force and must equal the generator's output key set, without duplicates. Added: configurations beyond the oracle (dimensions 1-5, to 14/11/10/9/8 chambers at quick) checked for validity, pairwise non-isomorphism and closure under local moves; streamed validity / irredundancy to 20/15/12/11/10/9/8 chambers in dimensions 1-7.",
    note="Trusts the brute-force enumerator and BFS class key (cross-checked against the all-permutations key for n <= 5).", ref="3/C06"),
  "C10": dict(tech="explicit-state search with stateright over real FreeWord values (histories to depth 5/6) + exhaustive one-step layer from every raw letter sequence; reference = naive free reduction",
    text="One step of every operation from every raw word of length <= 4, all histories of the mixed-operation menu to depth 5/6 as an explicit-state BFS on the observed letter vector, group and order axioms on all small triples, relator representative/permutations on all words up to length 6/8. Added: relators streamed to length 10/8/6 (14/10/8), letters at the integer-width boundaries.",
@@ -33,7 +33,7 @@ CHECKS = {
    text="Named finite groups x all sets of <= 2 words of length <= 3, and every 2-/3-generator presentation built from short cyclically reduced relators on which the reference enumeration finishes, x short subgroup generating sets; row count, permutation/inverse/transitivity/relator/subgroup-generator clauses and representatives checked on each. Added: subgroup generators to length 5/6 on the named groups, the empty word as generator and relator.",
    note="Trusts the reference Todd-Coxeter (validated against 17 known orders at start-up) and |G| = index * |H| cross-check.", ref="3/C11"),
  "C12": dict(tech="bounded exhaustive enumeration of presentations x index bounds against a homomorphism-counting oracle ((1/n!) sum over transitive homs into S_n of |Aut|)",
-   text="Named finite/infinite groups, every small presentation on 2 and 3 generators (including length-1 relators and the empty presentation), cyclic groups and D-symbol fundamental groups, every index bound k' <= k: tables valid, pairwise inequivalent, count per index equals the oracle. Added: 24 named groups against an independent backtracking low-index search (R5b) at index 4-16 (6-18), the empty relator.",
+   text="Named finite/infinite groups, every small presentation on 2 and 3 generators (including length-1 relators and the empty presentation), cyclic groups and D-symbol fundamental groups, every index bound k' <= k: tables valid, pairwise inequivalent, count per index equals the oracle. Added: 24 named groups against an independent backtracking low-index search (R5b) at index 4-16 (6-18), the empty relator, every written form (not one per rotation class) of every cyclically reduced relator of length <= 5/6.",
    note="Trusts the class counter (validated against published counts for F2, Z^2, Z^3 at start-up).", ref="3/C12"),
  "C13": dict(tech="bounded exhaustive enumeration of (group, transitive action, base row) against reference Todd-Coxeter, Reidemeister-Schreier, permutation-group closure and product-action orbits",
    text="All actions up to an index bound from two supplies, every base row: generators fix the base and generate the full stabiliser (index by reference Todd-Coxeter), presentation has the right order (finite) or the abelianisation and low-index profile of an independent Reidemeister-Schreier presentation (infinite); core and intersection tables against closure/orbit computations and all words of length <= 4. Added: groups with more than 2^16 and 2^17 elements for the core table (S_9, A_9), the empty relator.",
@@ -48,19 +48,19 @@ CHECKS = {
    text="Every D-set from DSets(2, <= 8/11) and every relabeling of those of size <= 4, all four geometries: outputs on the input set, complete, degree >= 3, right curvature sign, consecutively numbered, and in bijection with the oracle's classes of euclidean / minimally hyperbolic / good spherical branching vectors; 'all' is the disjoint union. Added: sweep to 16/18 chambers (streamed), flag D-sets of the regular maps to 48/120 chambers.",
    note="Trusts R1 and the definition-based orbifold computation; the list of good spherical orbifolds is copied from the statement's fixed list. DSets supplies the D-sets (C06).", ref="3/C07"),
  "C08": dict(tech="bounded exhaustive enumeration of labeled 2D symbols x branching vectors over {1,2,3,4,5,11}; oracles: curvature from the definition, Conway-symbol parser for Gauss-Bonnet, definition-based orbifold for the predicates",
-   text="All labeled connected 2D symbols of size <= 4 (every renumbering) and class representatives of size 5 (7): curvature definition, Gauss-Bonnet through the parsed orbifold symbol, invariance under renumbering and dualisation (corner lists up to rotation and reversal), curvature of verified covers = sheets x curvature, the three predicates. Added: degree boundaries of the symbol notation, 2D Coxeter coset symbols and mid-size representatives under renumbering, mirror polygons with pairwise coprime corner orders.",
-   note="Trusts R1, R2. Covers are only supplies; sheet numbers come from the reference model's verified covering map.", ref="3/C08"),
+   text="All labeled connected 2D symbols of size <= 4 (every renumbering) and class representatives of size 5 (7): curvature definition, Gauss-Bonnet through the parsed orbifold symbol, invariance under renumbering and dualisation (corner lists up to rotation and reversal), curvature of covers = sheets x curvature (harness-built 2-sheeted covers, and whatever oriented_cover / covers(s, 3) return, sheet number = size ratio), the three predicates. Added: degree boundaries of the symbol notation, 2D Coxeter coset symbols and mid-size representatives under renumbering, mirror polygons with pairwise coprime corner orders.",
+   note="Trusts R1, R2. Harness-built covers are verified coverings; crate-built covers are taken at their word (whether they are coverings is C05's clause).", ref="3/C08"),
  "C09": dict(tech="bounded exhaustive enumeration of symbols; structural clauses read off the result, group clauses against a textbook presentation via invariant factors, subgroup class counts, reference Todd-Coxeter orders and a verified base-point-change isomorphism",
    text="All labeled 2D/3D symbols of size <= 3, their harness-built 2-sheeted covers (size <= 2 bases), all DSyms outputs over DSets(2, <= 6/8): generator/facet/inverse/reducedness/cone clauses; H1, class counts to index 3/4, finite order (4/K for good spherical), and for finite groups a verified isomorphism with the textbook group. Added: degenerate degrees on every generator D-set, larger 3D symbols (corpus, prisms, Coxeter), class counts to index 5/6 by R5b.",
    note="Trusts R3, R4, R5, R6, R11. Class counts are skipped (and counted) when (n!)^generators > 2e6.", ref="3/C09"),
  "C15": dict(tech="bounded exhaustive enumeration of euclidean 2D symbols and admissible 3D symbols (with all relabelings and duals) plus the corpus; cover clauses by the reference model, H1 by textbook presentation + invariant factors",
-   text="Every curvature-0 2D symbol over all D-set classes of size <= 5/7 and branching 1..6; every admissible 3D symbol of size <= 3/4 under every relabeling and its dual; the 20 corpus symbols: existence, covering, orientedness, branch-freeness, H1 = Z^2 / Z^3, admissible sheet number, invariance of existence and sheet number, corpus found. Added: covers (4/5 sheets, 12/15 chambers) of the small symbols that have a cover, prisms over all euclidean 2D symbols of size <= 4/5.",
+   text="Every curvature-0 2D symbol over all D-set classes of size <= 5/7 and branching 1..6; every admissible 3D symbol of size <= 3/4 under every relabeling and its dual; the 20 corpus symbols: existence, covering, orientedness, branch-freeness, H1 = Z^2 / Z^3, admissible sheet number, invariance of existence and sheet number, corpus found. Added: covers (4/5 sheets, 12/15 chambers) of the small symbols that have a cover, prisms over all euclidean 2D symbols of size <= 4/5, relabelings of the corpus symbols of 4-6 chambers and of their duals.",
    note="Trusts R1, R6, R11 and the definition-based sphericity test for tiles and vertex figures.", ref="3/C15"),
  "C16": dict(tech="bounded exhaustive enumeration of inputs x deviation-bounded exhaustive exploration (bound 1; 2 on small inputs at the thorough tier) of the hash-order choice point in simplify through a cfg hook; every schedule replayed for determinism",
-   text="Pseudo-toroidal covers of all admissible symbols of size <= 3/4 and of the corpus, Coxeter manifold tilings and manifold covers with finite group, under systematic renumberings; for every explored schedule: result validity as a manifold tiling, preserved H1 and subgroup profile where the statement demands it, reducedness on pseudo-toroidal covers, and one minimal-quotient class for the corpus across renumberings and schedules. Added: manifold covers of small symbols with finite group (lens spaces), duals of the corpus, 2-sheeted covers of the corpus's pseudo-toroidal covers (to 576/1200+ chambers), the recorded 192-chamber numbering and six affine renumberings of the same 3-torus cover (a repaired defect: simplify lost the torus).",
+   text="Pseudo-toroidal covers of all admissible symbols of size <= 3/4 and of the corpus, Coxeter manifold tilings and manifold covers with finite group, under systematic renumberings; for every explored schedule: result validity as a manifold tiling, preserved H1 and subgroup profile where the statement demands it, reducedness on pseudo-toroidal covers, and one minimal-quotient class for the corpus across renumberings and schedules. Added: manifold covers of small symbols with finite group (lens spaces), duals of the corpus, 2-sheeted covers of the corpus's pseudo-toroidal covers (to 576/1200+ chambers), the recorded 192-chamber numbering and six affine renumberings of the same 3-torus cover (a repaired defect: simplify lost the torus), affine renumberings of every corpus and dual cover.",
    note="Trusts R1, R6, R11, the choice hook (sorted candidates, every candidate reachable by some hash order) and, for the index-2/3 subgroup profile, the crate's presentation + low-index enumeration (C09/C12).", ref="3/C16"),
  "C17": dict(tech="bounded exhaustive enumeration of admissible 3D symbols x deviation-bounded exhaustive exploration (bound 1) of the simplify choice point; verdict invariance over relabelings, dual and verified covers; independent re-derivation of every yes",
-   text="Every admissible 3D symbol of size <= 3/4 and the corpus: a verdict under every schedule with <= 1 deviation, equal verdict class for all relabelings and the dual, no yes/no contradiction with any verified cover of <= 2/3 sheets, certificate of every yes (finite oriented branch-free cover, H1 = Z^3, 7/13 subgroup classes), corpus = yes. Added: covers with up to 4/6 sheets above every yes, prisms, breadth-first search down the subgroup lattice below the corpus.",
+   text="Every admissible 3D symbol of size <= 3/4 and the corpus: a verdict under every schedule with <= 1 deviation, equal verdict class for all relabelings and the dual, no yes/no contradiction with any verified cover of <= 2/3 sheets, certificate of every yes (finite oriented branch-free cover, H1 = Z^3, 7/13 subgroup classes), corpus = yes. Added: covers with up to 4/6 sheets above every yes, prisms, breadth-first search down the subgroup lattice below the corpus, relabelings of the corpus symbols of 4-6 chambers and of their duals, call sequences of large symbols (120-576 chambers) within one process.",
    note="Cannot re-derive the completeness of the space-group invariant table. Trusts R1, R6, R11; the 7/13 counts use the crate's low-index enumeration (C12).", ref="3/C17"),
  "C18": dict(tech="bounded exhaustive enumeration of integer matrices (all shapes <= 3x3 over [-2,2], sparse 4x4, big-entry families, unimodular walk to 6x6) x right-hand sides x 8 backends; oracle = exact BigInt arithmetic with minors / Laplace / Cramer",
    text="rank, determinant, null space, inverse and solve for i64, BigRational and six prime fields through VecMatrix and (by hook) the const-generic Matrix; residue-class field axioms and canonical representatives incl. negative multiples of P; p-adic solver against Cramer's rule. Added: multi-column p-adic right-hand sides, machine integers with entries to 10^9 / 2^61 on the shapes that cannot overflow, two recorded dense inputs (known finding: i64 overflow).",
@@ -69,7 +69,7 @@ CHECKS = {
    text="Cut separates, has minimum size (minimum over all vertex subsets), no repeats, avoids source and sink; inside + source = reachable set. The forward/undirected family is there because flow cancellation is never exercised on <= 4 vertices. Added: 7-vertex graphs with 9 edges, host graphs of 8-10 vertices, layered networks, route networks of 14 vertices with a Menger-certificate oracle, recorded simplify networks.",
    note="Trusts the subset-enumeration oracle. Vertices that touch no edge are outside the domain.", ref="3/C19"),
  "C20": dict(tech="explicit-state model checking with stateright: BFS to the fixpoint over real Partition/IntPartition instances keyed by a snapshot of their internal forests, plus exhaustive DFS of all histories to depth 5/6 observed only through the public API",
-   text="Complete reachable state space of two instances (original + clone) over a 3-element (thorough: 4-element) universe for both partition types in lock-step with a naive partition; state and transition predicates for every clause of the statement; hook-free history enumeration as a cross-check. Added: all union-only sequences over 6 elements; parallel BFS over the internal forests of both structures over 8 elements (2.08 M states).",
+   text="Complete reachable state space of two instances (original + clone) over a 3-element (thorough: 4-element) universe for both partition types in lock-step with a naive partition; state and transition predicates for every clause of the statement; hook-free history enumeration as a cross-check. Added: all union-only sequences over 6 elements; parallel BFS over the internal forests of both structures over 8 elements (2.08 M states); classes() asked before any find with repeated and never-seen elements on a separate replay of every history.",
    note="Trusts the naive reference partition; fixpoint mode trusts the cfg-gated verif_snapshot hook to expose the internal arrays (the history mode does not use it).", ref="3/C20"),
 }
 
